@@ -3,6 +3,7 @@
 //
 //   c03_bundle <quick|thorough> [small]          every case derives from VERIF_SEED; `small` also draws bundle sizes 2..4
 //   c03_bundle replay <S|M|R|E> <case-seed> [small]   re-runs one case (the id printed in its lines)
+//   c03_bundle probe-small | probe-far           directed probes of the two known findings (see notes/C03.md)
 //
 // Lines (doubles as C99 hex floats):
 //   B <sid> NEW n=<n> max=<max_size> cap=<m_alphas.size()> cape=<m_bundleE.size()> caps=<rows of m_bundleS> eps0=<hex> | x | gx | fx
@@ -17,7 +18,12 @@
 //   CS <solver> <csearch status> <iter_ok> <converged>              (mirrored loops: what is handed to done())
 //   RUN <id> solver=.. kind=.. n=.. eps=.. max=.. maxev=.. status=.. gap=.. bound=.. dist=.. evals=..
 //   E1 <id> R=<hex> eps=<hex> macheps=<hex> maxev=<n> | c:f:g c:f:g ... | status fx evals
+//   ELL <id> k=<iteration> n=<n> last=<0|1> | f(x) | best f | gHg | x | g | H row;row | x' | H' row;row | x*
+//                                                                   (ev_ellipsoid_update of the real ellipsoid solver, sampled)
 //   FAIL <id> <clause> ...                                          (direct property oracle, independent of the model)
+//   KFAIL <id> cancellation <clause> ...                            (certificate / converged-not-optimal failure in a run whose
+//                                                                   largest evaluated |f| has ulp * 4 >= the certified tolerance:
+//                                                                   known finding, see notes/C03.md)
 //   DONE sessions=.. ops=.. runs=.. ...
 #include "common.h"
 #include <algorithm>
@@ -145,6 +151,7 @@ public:
         if (wg)
             for (tensor_size_t j = 0; j < size(); ++j) gx(j) = g[static_cast<size_t>(j)];
         ++m_evals;
+        if (std::isfinite(f)) m_max_abs_f = std::max(m_max_abs_f, std::fabs(f));
         // sharpness of the construction (a harness self-check, not a property of the library)
         double d = 0;
         for (tensor_size_t j = 0; j < size(); ++j) d += (x(j) - m_xs[static_cast<size_t>(j)]) * (x(j) - m_xs[static_cast<size_t>(j)]);
@@ -160,6 +167,7 @@ public:
     std::vector<double>         m_xs;
     double                      m_mu;
     mutable int64_t             m_evals{0};
+    mutable double              m_max_abs_f{0}; // largest |f| over all evaluations made through the library
     mutable bool                m_record{false};
     mutable std::vector<eval_t> m_trace;
 };
@@ -232,7 +240,8 @@ problem_t make_problem(vh::rng_t& r, int n_fixed = 0)
 struct counters_t
 {
     int64_t sessions{0}, ops{0}, serious{0}, nulls{0}, aggregations{0}, inactive_deleted{0}, guards{0}, convs{0}, conv_true{0},
-        oracle_checks{0}, runs{0}, converged{0}, fails{0}, e1{0}, mirrors{0}, mirror_ops{0};
+        oracle_checks{0}, runs{0}, converged{0}, fails{0}, kfails{0}, e1{0}, mirrors{0}, mirror_ops{0}, ell_events{0}, ell_printed{0};
+    double  ell_max_m{0};
     std::map<std::string, int64_t> hist;
 } C;
 
@@ -329,6 +338,24 @@ void oracle_rows(const std::string& sid, const bundle_t& b, const sharp_function
     }
 }
 
+// known finding `C03-false-convergence-by-cancellation-at-far-trial-point`: the curve search may evaluate trial points so far
+// away that |fy| ~ 2^56; the null-step error  fx - (fy + gy.(x - y))  then carries an absolute rounding error of ulp(fy), the cut
+// stops being a lower bound and the stopping test certifies a wrong point.  Narrow classification: the rounding of ONE
+// linearisation error at the largest magnitude evaluated in this run already exceeds the tolerance being certified.
+double ulp_of(double v)
+{
+    v = std::fabs(v);
+    return std::nextafter(v, std::numeric_limits<double>::infinity()) - v;
+}
+bool cancellation_explains(const sharp_function_t& f, double tol)
+{
+    return f.m_max_abs_f > 0.0 && ulp_of(f.m_max_abs_f) * 4.0 >= tol;
+}
+std::string cancellation_str(const sharp_function_t& f, double tol)
+{
+    return "max_abs_f=" + vh::hexf(f.m_max_abs_f) + " ulp=" + vh::hexf(ulp_of(f.m_max_abs_f)) + " tol=" + vh::hexf(tol);
+}
+
 // certificate oracle: both tests true => fx - f* <= tol + tol |x - x*|
 void oracle_certificate(const std::string& sid, const bundle_t& b, const sharp_function_t& f, double eps)
 {
@@ -337,9 +364,11 @@ void oracle_certificate(const std::string& sid, const bundle_t& b, const sharp_f
     const double d   = norm2(f.m_xs, b.m_x);
     if (b.m_fx - f.fstar() > (tol + tol * d) * (1.0 + 1e-6) + 1e-12)
     {
-        std::printf("FAIL %s certificate fx-f*=%s > tol+tol*d=%s tol=%s d=%s\n", sid.c_str(), vh::hexf(b.m_fx - f.fstar()).c_str(),
-                    vh::hexf(tol + tol * d).c_str(), vh::hexf(tol).c_str(), vh::hexf(d).c_str());
-        ++C.fails;
+        const bool known = cancellation_explains(f, tol);
+        std::printf("%s %s %scertificate fx-f*=%s > tol+tol*d=%s tol=%s d=%s %s\n", known ? "KFAIL" : "FAIL", sid.c_str(),
+                    known ? "cancellation " : "", vh::hexf(b.m_fx - f.fstar()).c_str(), vh::hexf(tol + tol * d).c_str(),
+                    vh::hexf(tol).c_str(), vh::hexf(d).c_str(), cancellation_str(f, tol).c_str());
+        ++(known ? C.kfails : C.fails);
     }
 }
 
@@ -527,6 +556,167 @@ void event_hook(int kind, const void* object, std::uint64_t a, std::uint64_t b)
         g_events.back().ret          = a != 0U;
         g_events.back().status_after = static_cast<int>(st->status());
     }
+}
+
+
+// ------------------------------------------------------------------------------------------------------------
+// hook ev_ellipsoid_update: values = n, f(x), best f, gHg, x[n], g[n], H[n*n], x'[n], H'[n*n] of every iteration
+// ------------------------------------------------------------------------------------------------------------
+struct ell_event_t
+{
+    int                 k{-1};
+    std::vector<double> v;
+};
+std::vector<ell_event_t>   g_ell;       // the sampled iterations of the current run
+ell_event_t                g_ell_last;  // the last iteration of the current run
+int                        g_ell_k = 0;
+const std::vector<double>* g_ell_xs = nullptr; // the known minimiser of the current run
+double                     g_ell_R  = 0;       // its initial radius
+int                        g_ell_bad_k = -1;   // first iteration after which x* is outside the ellipsoid (direct oracle)
+double                     g_ell_bad_m = 0, g_ell_max_m = 0;
+int                        g_ell_notpd_k = -1;
+const double               kEllTol = 1e-6;
+
+// (x* - x)' H^{-1} (x* - x) by a Cholesky factorisation in long double; < 0 if H is not positive definite.
+// n = 1: the bisection branch keeps |x* - x| <= 2 H (H = quarter of the bracket): returns ((x* - x) / (2H))^2
+long double ell_membership(int n, const double* x, const double* H, const std::vector<double>& xs)
+{
+    if (n == 1)
+    {
+        const long double w = static_cast<long double>(xs[0]) - x[0], h = 2.0L * H[0];
+        if (w == 0.0L) return 0.0L;
+        if (!(h > 0.0L)) return -1.0L;
+        return (w / h) * (w / h);
+    }
+    std::vector<long double> L(static_cast<size_t>(n * n), 0.0L), z(static_cast<size_t>(n));
+    for (int i = 0; i < n; ++i)
+    {
+        for (int j = 0; j <= i; ++j)
+        {
+            long double s = 0.5L * (static_cast<long double>(H[i * n + j]) + H[j * n + i]);
+            for (int t = 0; t < j; ++t) s -= L[static_cast<size_t>(i * n + t)] * L[static_cast<size_t>(j * n + t)];
+            if (i == j)
+            {
+                if (!(s > 0.0L)) return -1.0L;
+                L[static_cast<size_t>(i * n + i)] = std::sqrt(s);
+            }
+            else
+            {
+                L[static_cast<size_t>(i * n + j)] = s / L[static_cast<size_t>(j * n + j)];
+            }
+        }
+    }
+    long double m = 0.0L;
+    for (int i = 0; i < n; ++i)
+    {
+        long double s = static_cast<long double>(xs[static_cast<size_t>(i)]) - x[i];
+        for (int t = 0; t < i; ++t) s -= L[static_cast<size_t>(i * n + t)] * z[static_cast<size_t>(t)];
+        z[static_cast<size_t>(i)] = s / L[static_cast<size_t>(i * n + i)];
+        m += z[static_cast<size_t>(i)] * z[static_cast<size_t>(i)];
+    }
+    return m;
+}
+
+bool ell_sampled(int k)
+{
+    return k < 16 || (k < 400 && k % 8 == 0) || k % 64 == 0;
+}
+
+void values_hook(int kind, const void*, const double* values, int count)
+{
+    if (kind != verif::ev_ellipsoid_update || count < 1) return;
+    const int n = static_cast<int>(values[0]);
+    if (count != 4 + 3 * n + 2 * n * n) return;
+    const int k = g_ell_k++;
+    ++C.ell_events;
+    bool keep = ell_sampled(k) && g_ell.size() < 160;
+    if (g_ell_xs != nullptr && g_ell_bad_k < 0)
+    {
+        // direct oracle on EVERY iteration: the minimiser is inside the updated ellipsoid
+        const double*     xa = values + 4 + 2 * n + n * n;
+        const double*     Ha = xa + n;
+        const long double m  = ell_membership(n, xa, Ha, *g_ell_xs);
+        if (m < 0.0L)
+        {
+            if (g_ell_notpd_k < 0) g_ell_notpd_k = k;
+        }
+        else
+        {
+            g_ell_max_m = std::max(g_ell_max_m, static_cast<double>(m));
+            if (m > 1.0L + kEllTol)
+            {
+                g_ell_bad_k = k;
+                g_ell_bad_m = static_cast<double>(m);
+                keep        = true; // the driver re-checks this very iteration exactly
+            }
+        }
+    }
+    if (keep)
+    {
+        g_ell.push_back(ell_event_t{k, std::vector<double>(values, values + count)});
+    }
+    g_ell_last.k = k;
+    g_ell_last.v.assign(values, values + count);
+}
+
+void ell_begin(const std::vector<double>& xs, double R)
+{
+    g_ell.clear();
+    g_ell_last.k = -1;
+    g_ell_k      = 0;
+    g_ell_xs     = &xs;
+    g_ell_R      = R;
+    g_ell_bad_k = g_ell_notpd_k = -1;
+    g_ell_bad_m = g_ell_max_m = 0;
+    verif::g_values_hook.store(&values_hook);
+}
+
+std::string hm(const double* H, int n)
+{
+    std::string s;
+    for (int i = 0; i < n; ++i)
+    {
+        if (i) s += ";";
+        s += hv(H + i * n, n);
+    }
+    return s;
+}
+
+void ell_print(const std::string& id, const ell_event_t& e, bool last)
+{
+    const int     n = static_cast<int>(e.v[0]);
+    const double* p = e.v.data() + 4;
+    std::printf("ELL %s k=%d n=%d last=%d | %s | %s | %s | %s | %s | %s | %s | %s | %s\n", id.c_str(), e.k, n, last ? 1 : 0, vh::hexf(e.v[1]).c_str(),
+                vh::hexf(e.v[2]).c_str(), vh::hexf(e.v[3]).c_str(), hv(p, n).c_str(), hv(p + n, n).c_str(), hm(p + 2 * n, n).c_str(),
+                hv(p + 2 * n + n * n, n).c_str(), hm(p + 3 * n + n * n, n).c_str(), hv(g_ell_xs->data(), n).c_str());
+    ++C.ell_printed;
+}
+
+// after the run: the sampled iterations for the model driver + the verdict of the direct oracle
+void ell_end(const std::string& id, bool inside_initially)
+{
+    verif::g_values_hook.store(nullptr);
+    bool last_done = false;
+    for (const auto& e : g_ell)
+    {
+        const bool last = e.k == g_ell_last.k;
+        ell_print(id, e, last);
+        last_done = last_done || last;
+    }
+    if (!last_done && g_ell_last.k >= 0) ell_print(id, g_ell_last, true);
+    if (g_ell_k > 0)
+    {
+        C.hist["ell_steps_bucket=" + std::to_string(g_ell_k < 10 ? 0 : g_ell_k < 100 ? 1 : g_ell_k < 1000 ? 2 : 3)]++;
+        C.ell_max_m = std::max(C.ell_max_m, g_ell_max_m);
+    }
+    if (g_ell_notpd_k >= 0) C.hist["ell_runs_shape_not_pd_in_long_double"]++;
+    if (inside_initially && g_ell_bad_k >= 0)
+    {
+        std::printf("FAIL %s ellipsoid-membership k=%d (x*-x)'H^-1(x*-x)=%.17g > 1 after the update of iteration k (n=%d)\n", id.c_str(), g_ell_bad_k,
+                    g_ell_bad_m, static_cast<int>(g_ell_xs->size()));
+        ++C.fails;
+    }
+    g_ell_xs = nullptr;
 }
 
 struct config_t
@@ -745,7 +935,9 @@ void solver_run(uint64_t case_seed, bool small, bool dump)
     }
     g_events.clear();
     p.f->m_evals = 0;
+    if (sname == "ellipsoid") ell_begin(p.f->m_xs, c.R);
     const auto st = solver->minimize(*p.f, p.x0, make_null_logger());
+    if (sname == "ellipsoid") ell_end(id, d0 <= c.R);
     if (sname != "ellipsoid") compare_mirror(id, sname, st, mir.st);
     const double gap  = st.fx() - p.f->fstar();
     const double dist = norm2(p.f->m_xs, st.x());
@@ -769,9 +961,12 @@ void solver_run(uint64_t case_seed, bool small, bool dump)
     }
     if (conv && !(gap <= bound))
     {
-        std::printf("FAIL %s converged-not-optimal solver=%s gap=%.6e bound=%.6e dist=%.6e n=%d kind=%s %s\n", id.c_str(), sname.c_str(), gap, bound,
-                    dist, p.n, kind_name(p.kind, p.mu), config_str(c).c_str());
-        ++C.fails;
+        const double tol   = c.eps * std::sqrt(static_cast<double>(p.n));
+        const bool   known = sname != "ellipsoid" && cancellation_explains(*p.f, tol);
+        std::printf("%s %s %sconverged-not-optimal solver=%s gap=%.6e bound=%.6e dist=%.6e n=%d kind=%s %s %s\n", known ? "KFAIL" : "FAIL",
+                    id.c_str(), known ? "cancellation " : "", sname.c_str(), gap, bound, dist, p.n, kind_name(p.kind, p.mu), config_str(c).c_str(),
+                    cancellation_str(*p.f, tol).c_str());
+        ++(known ? C.kfails : C.fails);
     }
     if (sname == "ellipsoid" && p.n <= 6 && c.max_evals == 20000 && c.R >= d0 && !conv)
     {
@@ -830,7 +1025,9 @@ void ell1_run(uint64_t case_seed)
     p.f->m_record = true;
     p.f->m_trace.clear();
     g_events.clear();
+    ell_begin(p.f->m_xs, c.R);
     const auto st = solver->minimize(*p.f, p.x0, make_null_logger());
+    ell_end(id, d0 <= c.R);
     p.f->m_record = false;
     std::string tr;
     for (const auto& e : p.f->m_trace)
@@ -870,7 +1067,8 @@ int main(int argc, char** argv)
         else if (what == "M") solver_run(cs, small, true);
         else if (what == "R") solver_run(cs, small, false);
         else if (what == "E") ell1_run(cs);
-        std::printf("DONE replay fails=%d guards=%d\n", static_cast<int>(C.fails), static_cast<int>(C.guards));
+        std::printf("DONE replay fails=%d kfails=%d guards=%d ell_events=%d ell_max_membership=%.17g\n", static_cast<int>(C.fails), static_cast<int>(C.kfails),
+                    static_cast<int>(C.guards), static_cast<int>(C.ell_events), C.ell_max_m);
         return 0;
     }
     if (mode == "probe-small")
@@ -890,6 +1088,15 @@ int main(int argc, char** argv)
         std::printf("PROBE-SMALL runs=%d guard_hits=%d fails=%d\n", runs, hits, static_cast<int>(C.fails));
         return 0;
     }
+    if (mode == "probe-far")
+    {
+        // directed probe of the known finding `C03-false-convergence-by-cancellation-at-far-trial-point` (the case id alone
+        // determines the run): RQB, n = 7, the curve search evaluates trial points with |f| ~ 2^56, the null-step error is
+        // rounded by ~ulp(2^56) = 16 and the solver reports `converged` 1.7 above the minimum
+        solver_run(129757546649670ULL, false, false);
+        std::printf("PROBE-FAR runs=1 kfails=%d fails=%d\n", static_cast<int>(C.kfails), static_cast<int>(C.fails));
+        return 0;
+    }
     const bool small    = argc > 2 && std::string(argv[2]) == "small";
     const bool thorough = mode == "thorough";
     vh::rng_t  pre(vh::env_seed() ^ 0xC03C03C03C03ULL); // NB: seeding by seed * (splitmix increment) would only shift the stream
@@ -905,10 +1112,11 @@ int main(int argc, char** argv)
     std::string h;
     for (const auto& kv : C.hist) h += " " + kv.first + ":" + std::to_string(kv.second);
     std::printf("DONE sessions=%d ops=%d serious=%d nulls=%d aggregations=%d inactive_deleted=%d guards=%d convs=%d conv_true=%d oracle_checks=%d "
-                "mirrors=%d mirror_ops=%d runs=%d converged=%d e1=%d fails=%d |%s\n",
+                "mirrors=%d mirror_ops=%d runs=%d converged=%d e1=%d fails=%d kfails=%d ell_events=%d ell_printed=%d ell_max_membership=%.17g |%s\n",
                 static_cast<int>(C.sessions), static_cast<int>(C.ops), static_cast<int>(C.serious), static_cast<int>(C.nulls),
                 static_cast<int>(C.aggregations), static_cast<int>(C.inactive_deleted), static_cast<int>(C.guards), static_cast<int>(C.convs),
                 static_cast<int>(C.conv_true), static_cast<int>(C.oracle_checks), static_cast<int>(C.mirrors), static_cast<int>(C.mirror_ops),
-                static_cast<int>(C.runs), static_cast<int>(C.converged), static_cast<int>(C.e1), static_cast<int>(C.fails), h.c_str());
+                static_cast<int>(C.runs), static_cast<int>(C.converged), static_cast<int>(C.e1), static_cast<int>(C.fails), static_cast<int>(C.kfails),
+                static_cast<int>(C.ell_events), static_cast<int>(C.ell_printed), C.ell_max_m, h.c_str());
     return 0;
 }
